@@ -45,6 +45,9 @@ VARIANTS = [
     # open-ended interval
     {"model_key": "hertz_para", "range_x": [-float("inf"), 1e-6]},
     {"model_key": "hertz_cone", "range_x": [-5e-7, float("inf")]},
+    # no data in the interval: an unsuccessful fit (stored without fitted
+    # parameters, chi_sqr, xmin, xmax)
+    {"model_key": "hertz_para", "range_x": [1.9e-5, 2.2e-5]},
 ]
 TWINS_OF_0 = [5, 11, 12, 13]
 PIPES = [
@@ -794,6 +797,15 @@ class ContainerEngine:
                     self.prop, rule, f"fp:{k}", feats,
                     f"fit property {k!r} loaded as {str(b.get(k))[:120]}, "
                     f"saved {str(a.get(k))[:120]}", i)
+        # the settings reported next to the rating are those of this entry
+        c = norm_fp(r["fit properties"])
+        for k in sorted(set(a) | set(c)):
+            if a.get(k) != c.get(k):
+                feats = dict(feats, key=k)
+                return make_violation(
+                    self.prop, rule, f"reported-fp:{k}", feats,
+                    f"rating['fit properties'][{k!r}] is "
+                    f"{str(c.get(k))[:120]}, saved {str(a.get(k))[:120]}", i)
         if user is not None:
             for fld, rk in (("name", "name"), ("rate", "rating"),
                             ("comment", "comment")):
